@@ -161,17 +161,21 @@ class PrivHooks(QHooks):
 
 class LookupHooks(QHooks):
     """nughde_get on a fixed geometry: local part "ab", key "!ab\\0" (len 4)"""
-    tracked = frozenset(['G:lower', 'G:wildchars', 'G:nughde'])
+    KEY, WILD, NU = 'G:lower', 'G:wildchars', 'G:nughde'       # the probe key, the break-character list, the result: set by role (lookup_roles)
     KEYLEN = 4
+
+    @property
+    def tracked(self):
+        return frozenset([self.KEY, self.WILD, self.NU])
 
     def precise_arith(self, path):
         return True         # the key has 4 bytes: every counter over it is concrete
 
     def materialize(self, E, path):
-        if path == 'G:lower.s':
-            return fs(('&', 'G:lower.s[0]'))
-        if path == 'G:wildchars.s':
-            return fs(('&', 'G:wildchars.s[0]'))
+        if path == self.KEY + '.s':
+            return fs(('&', self.KEY + '.s[0]'))
+        if path == self.WILD + '.s':
+            return fs(('&', self.WILD + '.s[0]'))
         return TOP
 
     def __init__(self, eng_ref):
@@ -196,13 +200,15 @@ class LookupHooks(QHooks):
         return None
 
     def prim_stralloc_copys(self, E, x, args):
-        if self._sa(E, x) == 'G:lower':
+        if self._sa(E, x) == self.KEY:
             self.prefix = x.args[1].string
         return [Outcome(ret=fs(1))]
 
+    prim_stralloc_copyb = prim_stralloc_copys
+
     def prim_stralloc_cats(self, E, x, args):
         sa = self._sa(E, x)
-        if sa == 'G:nughde' and g1(E, '$hit') is not None:
+        if sa == self.NU and g1(E, '$hit') is not None:
             i, wild = g1(E, '$hit')
             # what is appended is an address inside the local part handed to nughde_get (LOCAL[k]), whoever computed it
             a = next(iter(args[1])) if args[1] is not TOP and len(args[1]) == 1 else None
@@ -215,8 +221,8 @@ class LookupHooks(QHooks):
         return [Outcome(ret=fs(1))]
 
     def prim_stralloc_append(self, E, x, args):
-        if self._sa(E, x) == 'G:lower' and x.args[1].string == '':
-            return [Outcome(ret=fs(1), sets={'G:lower.len': fs(self.KEYLEN)})]
+        if self._sa(E, x) == self.KEY and x.args[1].string == '':
+            return [Outcome(ret=fs(1), sets={self.KEY + '.len': fs(self.KEYLEN)})]
         return [Outcome(ret=fs(1))]
 
     def prim_stralloc_ready(self, E, x, args):
@@ -238,7 +244,7 @@ class LookupHooks(QHooks):
         if x.args[1].string == '':
             return [Outcome(ret=fs(1), sets={dp: fs(5)}), Outcome(ret=fs(0)), Outcome(ret=fs(-1), sets={'$err': fs(1)})]
         kv = next(iter(args[1])) if args[1] is not TOP and len(args[1]) == 1 else None
-        if x.args[1].path() != 'G:lower.s' and kv != ('&', 'G:lower.s[0]'):
+        if x.args[1].path() != self.KEY + '.s' and kv != ('&', self.KEY + '.s[0]'):
             raise AnalysisBroken('nughde_get: probe key is %s' % x.args[1].src())
         iv = args[2]
         i = next(iter(iv)) if iv is not TOP and len(iv) == 1 else None
@@ -258,10 +264,16 @@ class LookupHooks(QHooks):
         return [Outcome(ret=fs(0)), Outcome(ret=fs(-1), sets={'$err': fs(1)}, log='cdb read error')]
 
     def prim_byte_chr(self, E, x, args):
-        if x.args[0].path() == 'G:wildchars.s' or (args[0] is not TOP and args[0] == fs(('&', 'G:wildchars.s[0]'))):
-            n = g1(E, 'G:wildchars.len', 5)
+        if x.args[0].path() == self.WILD + '.s' or (args[0] is not TOP and args[0] == fs(('&', self.WILD + '.s[0]'))):
+            n = g1(E, self.WILD + '.len', 5)
             return [Outcome(ret=fs(0), sets={'$member': fs(True)}, log='break character: member'),
                     Outcome(ret=fs(n), sets={'$member': fs(False)}, log='break character: not a member')]
+        return [Outcome(ret=TOP)]
+
+    def prim_memchr(self, E, x, args):
+        if x.args[0].path() == self.WILD + '.s' or (args[0] is not TOP and args[0] == fs(('&', self.WILD + '.s[0]'))):
+            return [Outcome(ret=fs(('&', self.WILD + '.s[0]')), sets={'$member': fs(True)}, log='break character: member'),
+                    Outcome(ret=fs(0), sets={'$member': fs(False)}, log='break character: not a member')]
         return [Outcome(ret=TOP)]
 
     def prim_pipe(self, E, x, args):
@@ -276,6 +288,22 @@ class LookupHooks(QHooks):
             self.site('wildcard-hit-appends-the-remainder', None, g1(E, '$appended', 0) == 1, 'wildcard hit without the remainder of the local part', E)
         if h is not None and h[1] == 0:
             self.site('exact-hit-appends-nothing', None, g1(E, '$appended', 0) == 0, 'exact hit with a remainder appended', E)
+
+
+def lookup_roles(ng, sp):
+    """the three objects of nughde_get() by what is done with them: the probe key starts as the literal "!", the result is what
+    spawn() parses, the break-character list is the other stralloc that is sized from the database"""
+    def target(c):
+        t = c.args[0].strip() if c.args and c.args[0] is not None else None
+        while t is not None and t.k in ('un', 'cast') and t.args:
+            t = t.args[0].strip()
+        return t.path() if t is not None else None
+    nu = lookup_object(sp)
+    keys = {target(c) for c in ng.calls(('stralloc_copys', 'stralloc_copyb')) if len(c.args) > 1 and c.args[1] is not None and c.args[1].string == '!'}
+    wild = {target(c) for c in ng.calls(('stralloc_ready', 'stralloc_readyplus'))} - {nu, None}
+    if len(keys) != 1 or None in keys or len(wild) != 1:
+        raise AnalysisBroken('nughde_get: probe key %s / break list %s not identified' % (sorted(map(str, keys)), sorted(map(str, wild))))
+    return next(iter(keys)), next(iter(wild)), nu
 
 
 def lowered_root(fn, x_use, expr):
@@ -998,6 +1026,7 @@ def run(ctx):
     # ---------------------------------------------------------------- 3. lookup order
     r3 = rep.rule('C11.3-lookup-order', 'R-TABLE', 'nughde_get (key "!ab\\0"): exact key first, then shrinking prefixes probed iff they end in a break character (or are the empty prefix), never after a cdb error; remainder offset = key length - prefix literal length')
     LH = LookupHooks(None)
+    LH.KEY, LH.WILD, LH.NU = lookup_roles(ng, sp)
     eng4 = Engine(db, pl, LH, max_states=200000)
     eng4.run(ng, {'%s::%s' % (eng4.frame_id(ng), ng.params[0]): fs(('&', 'LOCAL[0]'))})
     rep.count_states(eng4.states, eng4.transitions)
@@ -1078,7 +1107,12 @@ def run(ctx):
     # key format
     nu = db.program('qmail-newu').fn('main', 'qmail-newu.c')
     wp = [c.args[1].string for c in nu.calls('stralloc_copys') if c.args[0].src() == '&key']
-    rpfx = [c.args[1].string for c in ng.calls('stralloc_copys') if c.args[0].src() == '&lower']
+    def _tgt(c_):
+        t_ = c_.args[0].strip() if c_.args and c_.args[0] is not None else None
+        while t_ is not None and t_.k in ('un', 'cast') and t_.args:
+            t_ = t_.args[0].strip()
+        return t_.path() if t_ is not None else None
+    rpfx = [c.args[1].string for c in ng.calls(('stralloc_copys', 'stralloc_copyb')) if _tgt(c) == LH.KEY]
     r4.check(bool(wp) and set(wp) == set(rpfx) and len(set(wp)) == 1, 'key-prefix-agrees', 'qmail-newu.c/qmail-lspawn.c', 'writer prefixes %s, reader prefixes %s' % (wp, rpfx))
     adds = [c for c in nu.calls('cdbmss_add') if c.args[1].src() == 'key.s']
     okl = bool(adds) and lowered_root(nu, adds[0], adds[0].args[1])
@@ -1095,14 +1129,15 @@ def run(ctx):
         r4.check(lowered_root(nu, c, c.args[2]), 'writer-deduplicates-break-characters-lower-cased', c.where, 'membership test on %s' % c.args[2].src())
     from qv.lib import deep_calls
     okr = False
-    for f, c in deep_calls(pl, ng, 'byte_chr'):
-        if c.args[0].src() != 'wildchars.s':
+    for f, c in deep_calls(pl, ng, ('byte_chr', 'memchr')):
+        if (c.args[0].strip().path() or '') != LH.WILD + '.s':
             continue
+        needle = c.args[2] if c.callee == 'byte_chr' else c.args[1]
         if f is ng:
-            okr = lowered_root(ng, c, c.args[2])
+            okr = lowered_root(ng, c, needle)
         else:
             # the byte is the helper's parameter: judge the expression nughde_get passes
-            pv = c.args[2].var
+            pv = needle.var
             idx = f.params.index(pv) if pv in f.params else None
             sites = ng.calls(f.name)
             okr = idx is not None and bool(sites) and all(lowered_root(ng, sc, sc.args[idx]) for sc in sites)
